@@ -100,9 +100,7 @@ def isolate(drv, cfg_ops, lang, text, sig):
 def run_shard(ctx):
     rng = ctx.rng
     res = ctx.res
-    clock_name, epoch = ctx.clock_for_shard()
-    tzs = ['UTC'] if not ctx.thorough() else ['UTC', 'America/New_York', 'Asia/Kolkata', 'Pacific/Chatham']
-    tz = tzs[(ctx.shard // 2) % len(tzs)]
+    clock_name, epoch, tz = ctx.env_for_shard()
     drv = ctx.driver(epoch, tz, rw=True)
     res.notes.append('shard %d: clock %s, TZ %s' % (ctx.shard, clock_name, tz))
     shrunk = 0
